@@ -6,7 +6,7 @@ import evmref as R
 PID = "C03"
 LEAN_TARGETS = ["EtkVerif.Props.C03"]
 RULE = ("byte strings of complete instructions over the opcodes the Cancun table defines: every single instruction exhaustively "
-        "(149 opcodes; pushN with all-zero, leading-zero, all-ff and random immediates), random streams of 1..300 instructions; "
+        "(149 opcodes; pushN with all-zero, leading-zero, all-ff and random immediates), random streams of 1..300 instructions, half of them written to the disassembler in pieces of 1..40 bytes with the listing collected after every write; "
         "disassembled by the real Disassembler, printed as `mnemonic[ 0ximm]` per line, assembled by the real Ingest; the bytes must "
         "come back and the offsets must be the prefix sums. non-trivial = at least one push with a leading-zero immediate or more "
         "than 3 instructions")
@@ -43,7 +43,16 @@ def cases(rng, tier):
     for _ in range(n):
         k = rng.choice([1, 2, 3, 5, 10, 30, 100, 300]) if tier == "thorough" else rng.choice([1, 2, 3, 5, 10, 30, 100])
         bs = b"".join(enc(rng.choice(ops), rng, rng.randrange(5)) for _ in range(k))
-        cs.append({"line": f"lst {bs.hex()}", "tags": ["stream"]})
+        if rng.random() < 0.5:
+            # streaming use: written in pieces, the listing collected after every write (T-dis: the pieces cannot matter)
+            sizes = []
+            left = len(bs)
+            while left > 0 and len(sizes) < 40:
+                z = rng.choice([1, 2, 3, 5, 8, 13, 16, 31, 32, 33, rng.randrange(1, 40)])
+                sizes.append(z); left -= z
+            cs.append({"line": f"lst {bs.hex()} {'.'.join(map(str, sizes))}", "tags": ["stream", "pieces"]})
+        else:
+            cs.append({"line": f"lst {bs.hex()}", "tags": ["stream"]})
     return cs
 
 
